@@ -410,6 +410,7 @@ pub fn run_c05(tier: Tier) -> ! {
                 }
                 if n >= 2 {
                     acts.push(w4::Act::ResetAddr(1));
+                    acts.push(w4::Act::EnterOperate);
                 }
                 let mut cfg = w4::W4Cfg { rig: crate::dprig::RigCfg::basic(periphs), slave_dev: vec![0; n], gc_every_visit: n == 2, high_prio: false, acts, mon: w4::Mon::C05, dev_budget: if n >= 3 { 3 } else { 255 }, late_add: false };
                 cfg.rig.operate = operate;
